@@ -381,3 +381,28 @@ def iterator_reuse(p: State):
             if v in used and len(here) > len(lp) and here[:len(lp)] == lp:
                 out.append((e, v))
     return out
+
+
+def saturating_move(p: State, e: Event, want, bounds) -> bool:
+    """the value event e stores is `want` saturated at the documented bounds: the plain sum (possibly inside min / max at exactly
+    those bounds), or - statement form - the upper (lower) bound on a path that has established  want > upper  (want < lower)"""
+    from .expr import canon
+    v = canon(strip_epochs(e.value))
+    want = canon(want)
+    if unclamped(v, bounds) == want:
+        return True
+    if v[0] == "c" and v[1] in bounds:
+        for c in conds_at(p, e):
+            c = strip_epochs(c)
+            if c[0] != "cmp" or c[1] not in (">", ">=", "<", "<="):
+                continue
+            a, b, op = c[2], c[3], c[1]
+            if canon(b) == want and a[0] == "c":
+                a, b, op = b, a, {">": "<", ">=": "<=", "<": ">", "<=": ">="}[op]
+            if canon(a) != want or b[0] != "c":
+                continue
+            if v[1] == bounds[1] and ((op == ">" and b[1] == bounds[1]) or (op == ">=" and b[1] in (bounds[1], bounds[1] + 1))):
+                return True
+            if v[1] == bounds[0] and ((op == "<" and b[1] == bounds[0]) or (op == "<=" and b[1] in (bounds[0], bounds[0] - 1))):
+                return True
+    return False
